@@ -86,6 +86,8 @@ def build_world(scn, sched=None, observe=None, faults=True):
     stdin_script = scn.get("script_on_stdin", False)
     if scn.get("script") is not None and not stdin_script:
         argv.append("0x" + scn["script"])
+    elif scn.get("script_text") is not None and not stdin_script and scn.get("script_text_in_argv", True):
+        argv.append(scn["script_text"])
     argv += ["0x" + s for s in scn.get("stack", [])]
     if scn.get("extra_argv"):
         argv += scn["extra_argv"]
